@@ -833,3 +833,24 @@ Proof.
     destruct (match ro_bgcolor o with Some c => c | None => (255, 255, 255) end) as [[r g] b].
     destruct (ro_mode o) as [[]|]; try reflexivity; congruence.
 Qed.
+
+(* ------------------------------------------------------------------ colour key in WMSSource.get_map *)
+
+(* the colour key is applied to whatever _get_map returns - the upstream image or the sub image pasted for a request
+   that reaches beyond the coverage: a pixel within the tolerance of the key colour is fully transparent *)
+Lemma source_image_keyed : forall c tol pl raw,
+  source_image (Some c) tol pl raw = make_transparent_img c tol (source_image None tol pl raw).
+Proof. reflexivity. Qed.
+
+Lemma make_transparent_px_key : forall four c tol r g b a,
+  0 <= tol -> 0 <= a <= 255 ->
+  let '(cr, cg, cb) := c in
+  cr - tol <= r <= cr + tol -> cg - tol <= g <= cg + tol -> cb - tol <= b <= cb + tol ->
+  px_a (make_transparent_px four c tol (r, g, b, a)) = 0.
+Proof.
+  intros four [[cr cg] cb] tol r g b a T A Hr Hg Hb. unfold make_transparent_px.
+  replace ((cr - tol <=? r) && (r <=? cr + tol)) with true by (symmetry; apply andb_true_intro; split; apply Z.leb_le; lia).
+  replace ((cg - tol <=? g) && (g <=? cg + tol)) with true by (symmetry; apply andb_true_intro; split; apply Z.leb_le; lia).
+  replace ((cb - tol <=? b) && (b <=? cb + tol)) with true by (symmetry; apply andb_true_intro; split; apply Z.leb_le; lia).
+  cbn [andb px_a]. destruct four; [|reflexivity]. unfold chop_mul. reflexivity.
+Qed.
